@@ -114,6 +114,33 @@ def gen_step(rnd, sb, desc, counter):
     if x < 0.80 and shells:
         c = rnd.choice(shells)
         return Step("rename_cmd", cmd=c.name, new="R%d" % counter)
+    if x < 0.83 and shells:
+        # a virtual node that nothing produces yet is used as an ordering input (or as a target node); later it may gain a producer
+        unproduced = sorted(set(i for c in desc.cmds.values() for i in c.inputs if is_virtual(i) and desc.producer(i) is None))
+        if unproduced and rnd.random() < 0.6:
+            v = rnd.choice(unproduced)
+            # nothing the new producer reads may depend on a consumer of v
+            cons_outs = set()
+            for c in desc.cmds.values():
+                if v in c.inputs:
+                    for o in c.outputs:
+                        cons_outs.add(o); cons_outs |= downstream(desc, o)
+            srcs = [q for q in sources if q not in cons_outs]
+            if srcs:
+                return Step("produce_virtual", node=v, name="V%d" % counter, inputs=[rnd.choice(srcs)], outputs=["out/v%d.gen" % counter, v])
+        c = rnd.choice(shells)
+        node = "<u%d>" % counter
+        first = Step("add_unproduced_virtual", cmd=c.name, node=node)
+        if rnd.random() < 0.7:
+            cons_outs = set(c.outputs)
+            for o in c.outputs:
+                cons_outs |= downstream(desc, o)
+            srcs = [q for q in sources if q not in cons_outs]
+            if srcs:
+                desc._followup = [Step("build", target="", jobs=None),
+                                  Step("produce_virtual", node=node, name="V%d" % counter, inputs=[rnd.choice(srcs)], outputs=["out/v%d.gen" % counter, node]),
+                                  Step("build", target="", jobs=rnd.choice([None, 4]))]
+        return first
     if x < 0.86:
         # edit the node list of an EXISTING target (add, replace or remove a node), or create/delete a named target
         outs = [o for c in desc.cmds.values() if c.name != "Call" for o in c.outputs]
@@ -232,6 +259,23 @@ def apply_step(step, sb, desc):
             c.inputs.remove(kw["node"]); c.outputs.append(kw["node"])
             return False
         refresh_all(desc)
+    elif k == "add_unproduced_virtual":
+        c = desc.cmds.get(kw["cmd"])
+        if c is None:
+            return False
+        c.inputs.append(kw["node"])
+    elif k == "produce_virtual":
+        if kw["name"] in desc.cmds or desc.producer(kw["node"]) is not None or not any(kw["node"] in c.inputs for c in desc.cmds.values()):
+            return False
+        c = Cmd(kw["name"], "shell", inputs=kw["inputs"], outputs=kw["outputs"], salt="v")
+        c.attrs["description"] = "RUN " + c.name
+        call = desc.cmds.pop("Call")
+        desc.cmds[c.name] = c
+        desc.cmds["Call"] = call
+        if not all_inputs_ok(desc):
+            del desc.cmds[c.name]
+            return False
+        # NOT added to the inputs of 'Call': the new command is reachable only through the virtual node it now produces
     elif k == "edit_target":
         nodes = [n for n in kw["nodes"] if desc.producer(n) is not None or n in desc.sources]
         if not nodes or desc.targets.get(kw["target"]) == nodes:
